@@ -105,6 +105,8 @@ if __name__ == "__main__":
             elif args[i] == "--jobs":
                 jobs = int(args[i + 1])
                 i += 2
+            elif args[i] == "--write":
+                i += 1
             else:
                 names.append(args[i])
                 i += 1
@@ -113,3 +115,19 @@ if __name__ == "__main__":
         rows = run(names, tier, props, jobs)
         missed = [r for r in rows if r[3] != 1]
         print("%d runs, %d not detected" % (len(rows), len(missed)))
+        if "--write" in sys.argv:
+            # table of which check catches which seeded change (committed; quoted by DESIGN.md 11.5)
+            res = {}
+            path = os.path.join(SEEDED, "RESULTS.json")
+            if os.path.exists(path):
+                res = json.load(open(path))
+            for (name, prop, p, rc, nv, clause, wall) in rows:
+                res.setdefault(name, {"seeded_for": prop, "checks": {}})["checks"][p] = {"exit": rc, "first_clauses": clause, "tier": tier}
+            json.dump(res, open(path, "w"), indent=1, sort_keys=True)
+            lines = ["| seeded change | property | needs | check | exit | first failing clauses |", "|---|---|---|---|---|---|"]
+            for name in sorted(res):
+                meta = json.load(open(os.path.join(SEEDED, name, "meta.json")))
+                for p, r in sorted(res[name]["checks"].items()):
+                    lines.append("| %s | %s | %s | %s | %d | %s |" % (name, res[name]["seeded_for"], meta.get("needs", "")[:160].replace("|", "/"), p, r["exit"],
+                                                                    r["first_clauses"].replace("clauses: ", "")[:90].replace("|", "/")))
+            open(os.path.join(SEEDED, "RESULTS.md"), "w").write("\n".join(lines) + "\n")
